@@ -164,6 +164,16 @@ def handle : Handler := fun op args =>
         | _, _, _ => "err"
       | .error .undef, _, _, _ => "undef"
       | _, _, _, _ => "err"
+  -- Cross(u,v) = skew(u)·v and Dot(p,q) = row(p)·column(q), evaluated on the model
+  | "c04.crossdot" => withArgs (do let u ← pRats; let v ← pRats; let p ← pRats; let q ← pRats; pure (u, v, p, q)) args fun (u, v, p, q) =>
+      let sk : Mat := ⟨3, 3, [[0, -(u.getD 2 0), u.getD 1 0], [u.getD 2 0, 0, -(u.getD 0 0)], [-(u.getD 1 0), u.getD 0 0, 0]]⟩
+      match cross u v, matVec sk v, dot p q, mul ⟨1, p.length, [p]⟩ ⟨q.length, 1, q.map (fun x => [x])⟩ with
+      | .ok c, .ok s, .ok d, .ok rc => "ok " ++ b01 (decide (c = s)) ++ " " ++ b01 (decide (rc.data = [[d]]))
+      | _, _, _, _ => "err"
+  -- aliasing spellings
+  | "c04.alias" => withArgs (do let k ← tok; let a ← pMat; let v ← pRats; pure (k, a, v)) args fun (k, a, v) =>
+      if k = "pa" ∨ k = "ma" ∨ k = "ss" then ansM (aliasM k a)
+      else if k = "vs" ∨ k = "vv" then ansV (aliasV k v a) else "bad-args"
   | "c04.laws" => withArgs (do let a ← pMat; let b ← pMat; pure (a, b)) args fun (a, b) =>
       match mul a b, mul (transpose b) (transpose a), mul a (identity a.cols), mul (identity a.rows) a with
       | .ok ab, .ok btat, .ok ai, .ok ia =>
